@@ -1454,6 +1454,40 @@ func runRotationSchedule(t *rapid.T) {
 
 func TestRotationSchedule(t *testing.T) { rapid.Check(t, runRotationSchedule) }
 
+// runManyRotations: a log that has rotated around a generated number of times - below, at and above the points where the
+// index in the file name grows a digit (wal.099/wal.100, wal.999/wal.1000) - is re-opened (as after a restart: the group
+// rediscovers its files from the directory) and must be read back completely, every marker found.
+func runManyRotations(t *rapid.T) {
+	vstat.Eval()
+	dir := newCaseDir()
+	defer os.RemoveAll(dir)
+	n := rapid.SampledFrom([]int{2, 9, 10, 11, 99, 100, 101, 102, 998, 999, 1000, 1001, 1002, 1003, 1010}).Draw(t, "rotations") + rapid.IntRange(0, 1).Draw(t, "plus")
+	h0 := uint64(rapid.IntRange(1, 70000).Draw(t, "h0"))
+	var recs []*rec
+	for i := 0; i < n; i++ {
+		recs = append(recs, markerRec(h0+uint64(i)))
+	}
+	// a few more records behind the last rotation
+	recs = append(recs, markerRec(h0+uint64(n)), partRec(rapid.IntRange(1, 300).Draw(t, "tail"), nil, true))
+	lg := writeLog(t, filepath.Join(dir, "w"), recs, opsOf(recs), func(i int, _ func() bool) (bool, bool) { return i < n, true }, false)
+	if lg == nil {
+		return
+	}
+	vstat.Label(fmt.Sprintf("many_rotations_files_%d_digits", len(fmt.Sprint(len(lg.files)-1))))
+	vstat.NonTrivial(fmt.Sprintf("%d|%d", n, h0))
+	c := &checker{t: t, lg: lg, afterAlt: -1}
+	// the markers of the newest files are what a restart looks for: check the whole log, then a sample of markers is enough
+	if len(lg.markers) > 6 {
+		keep := append([]int{}, lg.markers[:2]...)
+		keep = append(keep, lg.markers[len(lg.markers)-4:]...)
+		lg.markers = keep
+	}
+	c.checkIntact(filepath.Join(dir, "d"))
+	vstat.EvalN(c.nEvals)
+}
+
+func TestManyRotations(t *testing.T) { rapid.Check(t, runManyRotations) }
+
 func TestWALDamage(t *testing.T) {
 	rapid.Check(t, runLog)
 }
